@@ -12,7 +12,7 @@ FUNCTIONS = [
 ]
 BOUNDS = {
     "quick": "prepared screens of 5 rows (and 7 rows with one operation, and the random hold-out) (1 observed plate, 2 unobserved plates of 2 rows, all conditions and 3 of 5 samples distinct), every hold-out choice the generator can make (fraction 1/2), every history of <=2 operations from {reveal(plate), mask, unmask, save+load, reveal via CLI}",
-    "thorough": "5 rows with histories of <=4 operations; 7 rows / 3 unobserved plates with histories of <=3 operations, fractions 1/2 and 1/3, random hold-out with 2 operations",
+    "thorough": "5 rows with histories of <=4 operations; 7 rows / 3 unobserved plates with histories of <=3 operations, fractions 1/2, 1/3 and 2/3, random hold-out with 2 operations; generated screen structures of up to 8 rows with histories of 2 (8 of them: 3) operations",
 }
 ASSUMPTIONS = [
     "rng.choice(a, k, replace=False) returns an arbitrary k-subset (every one explored)",
@@ -35,16 +35,38 @@ def configs(tier, seed):
         return [dict(name="lifecycle R=5 L=2", h="life", R=5, L=2, num=1, den=2, split="balanced"),
                 dict(name="lifecycle R=7 L=1", h="life", R=7, L=1, num=1, den=2, split="balanced"),
                 dict(name="lifecycle R=5 L=1 random-holdout", h="life", R=5, L=1, num=2, den=5, split="random")]
-    return [dict(name="lifecycle R=5 L=3", h="life", R=5, L=3, num=1, den=2, split="balanced"),
-            dict(name="lifecycle R=5 L=4", h="life", R=5, L=4, num=1, den=2, split="balanced"),
-            dict(name="lifecycle R=7 L=3", h="life", R=7, L=3, num=1, den=2, split="balanced"),
-            dict(name="lifecycle R=7 L=2 third", h="life", R=7, L=2, num=1, den=3, split="balanced"),
-            dict(name="lifecycle R=7 L=2 random-holdout", h="life", R=7, L=2, num=2, den=5, split="random")]
+    out = [dict(name="lifecycle R=5 L=3", h="life", R=5, L=3, num=1, den=2, split="balanced"),
+           dict(name="lifecycle R=5 L=4", h="life", R=5, L=4, num=1, den=2, split="balanced"),
+           dict(name="lifecycle R=7 L=3", h="life", R=7, L=3, num=1, den=2, split="balanced"),
+           dict(name="lifecycle R=7 L=2 third", h="life", R=7, L=2, num=1, den=3, split="balanced"),
+           dict(name="lifecycle R=7 L=2 random-holdout", h="life", R=7, L=2, num=2, den=5, split="random"),
+           dict(name="lifecycle R=5 L=2 random-holdout", h="life", R=5, L=2, num=2, den=5, split="random"),
+           dict(name="lifecycle R=5 L=3 two thirds", h="life", R=5, L=3, num=2, den=3, split="balanced")]
+    # generated screen structures (retro_common.generated_family), names replaced by names of different lengths
+    from .retro_common import family
+    for k in range(N_GENERATED):
+        rows = family("G%d" % k)
+        if len(rows) > 8 or all(r[5] == "obs" for r in rows):
+            continue
+        L = 3 if k < 8 else 2
+        out.append(dict(name="lifecycle G%d (%d rows) L=%d" % (k, len(rows), L), h="life", R=len(rows), fam="G%d" % k, L=L, num=1, den=2, split="balanced"))
+    return out
+
+
+N_GENERATED = 24
+RENAME = {"a": "a", "b": "bb", "c": "cccc-long", "d": "ffffff-longer", "": "", "s1": "s1x", "s2": "s2", "s3": "s3-the-longest-sample"}
+
+
+def _rows(cfg):
+    if cfg.get("fam"):
+        from .retro_common import family
+        return [(RENAME[r[0]], RENAME[r[1]], r[2], RENAME[r[3]], r[4], r[5]) for r in family(cfg["fam"])]
+    return (ROWS5 if cfg["R"] == 5 else ROWS7)[:cfg["R"]]
 
 
 def fixtures(cfg):
     base = {"R.pick%d" % i: (i * 7 + 1) % 3 for i in range(12)}
-    base.update({"ob%d" % i: 0.2 + 0.1 * i for i in range(8)})
+    base.update({"ob%d" % i: 0.2 + 0.1 * i for i in range(10)})
     base.update({"x%d" % i: 0.05 * (i + 1) for i in range(60)})
     base.update(prec=1.0, op0=0, rp0=1, op1=3, rp1=0, op2=1, rp2=0)
     return [base, dict(base, op0=4, rp0=2, op1=2), dict(base, op0=1, op1=0, rp1=1)]
@@ -90,7 +112,7 @@ def h_life(ctx, cfg):
     retro = ctx.mod("batchie.retrospective")
     data = ctx.mod("batchie.data")
     sc = ctx.mod("batchie.models.sparse_combo")
-    rows = (ROWS5 if cfg["R"] == 5 else ROWS7)[:cfg["R"]]
+    rows = _rows(cfg)
     R = len(rows)
     obs = [ctx.real("ob%d" % i, positive=True) for i in range(R)]
     mask = [r[5] == "obs" for r in rows]
